@@ -119,9 +119,13 @@ class Module:
             self._index_const(st)
             # constants assigned under try/if at module level
             if isinstance(st, (ast.Try, ast.If)):
-                for sub in ast.walk(st):
-                    if isinstance(sub, ast.stmt):
-                        self._index_const(sub)
+                subs = [sub for sub in ast.walk(st) if isinstance(sub, ast.stmt)]
+                if isinstance(st, ast.Try) and any(h.type is not None and ("ImportError" in norm(h.type) or "ModuleNotFoundError" in norm(h.type)) for h in st.handlers) \
+                        and _imports_resolve(st.body):
+                    in_handlers = {id(x) for h in st.handlers for x in ast.walk(h)}
+                    subs = [x for x in subs if id(x) in in_handlers] + [x for x in subs if id(x) not in in_handlers]
+                for sub in subs:
+                    self._index_const(sub)
 
     def _index_const(self, st: ast.stmt) -> None:
         if isinstance(st, ast.Assign) and len(st.targets) == 1 and isinstance(st.targets[0], ast.Name):
@@ -150,9 +154,17 @@ class Module:
                         ci.attrs[s2.target.id] = s2.value
                 self._index_body(st.body, prefix + st.name + ".", ci)
             elif isinstance(st, (ast.Try,)):
-                self._index_body(st.body, prefix, cls)
-                for h in st.handlers:
-                    self._index_body(h.body, prefix, cls)
+                # `try: import x ... except ImportError: <fallback>`: the branch that runs on the analysing platform
+                # is indexed last, so that its definitions win (as at import time)
+                import_guard = any(h.type is not None and "ImportError" in norm(h.type) or h.type is not None and "ModuleNotFoundError" in norm(h.type) for h in st.handlers)
+                if import_guard and _imports_resolve(st.body):
+                    for h in st.handlers:
+                        self._index_body(h.body, prefix, cls)
+                    self._index_body(st.body, prefix, cls)
+                else:
+                    self._index_body(st.body, prefix, cls)
+                    for h in st.handlers:
+                        self._index_body(h.body, prefix, cls)
                 self._index_body(st.orelse, prefix, cls)
                 self._index_body(st.finalbody, prefix, cls)
             elif isinstance(st, ast.If):
@@ -309,6 +321,34 @@ def bind_args(callee: FunctionInfo, call: ast.Call, skip_self: bool) -> Dict[str
         else:
             out[kw.arg] = kw.value
     return out
+
+
+def _imports_resolve(body: List[ast.stmt]) -> bool:
+    """Would the import statements of this block succeed on the analysing platform?  Standard-library modules are
+    looked at as data (attribute present); anything else only through importlib's finder (nothing is imported)."""
+    import importlib.util
+    import sys as _sys
+    for st in body:
+        mods: List[Tuple[str, List[str]]] = []
+        if isinstance(st, ast.Import):
+            mods = [(a.name, []) for a in st.names]
+        elif isinstance(st, ast.ImportFrom) and st.module and not st.level:
+            mods = [(st.module, [a.name for a in st.names])]
+        for m, names in mods:
+            top = m.split(".")[0]
+            try:
+                if importlib.util.find_spec(top) is None:
+                    return False
+            except (ImportError, ValueError):
+                return False
+            if top in getattr(_sys, "stdlib_module_names", ()) and names:
+                try:
+                    mod = importlib.import_module(m)
+                except ImportError:
+                    return False
+                if any(n != "*" and not hasattr(mod, n) for n in names):
+                    return False
+    return True
 
 
 def walk_no_nested(node: ast.AST) -> Iterator[ast.AST]:
